@@ -172,7 +172,15 @@ pub fn decode(base38_str: &str) -> impl Iterator<Item = Result<u8, Error>> + '_ 
             let offset = stru.len() / 5 * 5;
             decode_base38(&stru[offset..])
         })
-        .take_while(Result::is_ok)
+        // Stop at - but do report - the first error
+        .scan(false, |failed, item| {
+            if *failed {
+                None
+            } else {
+                *failed = item.is_err();
+                Some(item)
+            }
+        })
 }
 
 fn decode_base38(chars: &[u8]) -> impl Iterator<Item = Result<u8, Error>> {
@@ -197,23 +205,28 @@ fn decode_base38(chars: &[u8]) -> impl Iterator<Item = Result<u8, Error>> {
                 }
             }
         }
+        // The chunk must not encode more than what fits in its bytes
+        if cerr.is_none() && value >> (8 * repeat) != 0 {
+            cerr = Some(ErrorCode::InvalidData);
+        }
     } else {
         cerr = Some(ErrorCode::InvalidData)
     }
 
-    (0..repeat)
-        .map(move |_| {
-            if let Some(err) = cerr {
-                Err(err.into())
-            } else {
-                let byte = (value & 0xff) as u8;
+    // An invalid chunk yields (only) its error
+    let count = if cerr.is_some() { 1 } else { repeat };
 
-                value >>= 8;
+    (0..count).map(move |_| {
+        if let Some(err) = cerr {
+            Err(err.into())
+        } else {
+            let byte = (value & 0xff) as u8;
 
-                Ok(byte)
-            }
-        })
-        .take_while(Result::is_ok)
+            value >>= 8;
+
+            Ok(byte)
+        }
+    })
 }
 
 fn decode_char(c: u8) -> Result<u8, Error> {
